@@ -2,12 +2,16 @@
 # run_mutant.sh <patch> <check-id>...: applies a patch to a scratch worktree of /repo (never to
 # /repo itself), runs the given quick checks against it (development overrides VERIF_DEV_REPO /
 # VERIF_DEV_OUT keep /verif/evidence and /verif/replays untouched), removes the worktree.
+# With SNAP=<dir> (a copy of /verif made by tools/snapshot.sh) the checks run from that copy, so
+# /verif can be edited meanwhile.
 PATCH=$1; shift
+V=${SNAP:-/verif}
 WT=$(mktemp -d /tmp/mutrepo.XXXXXX); OUT=$(mktemp -d /tmp/mutout.XXXXXX)
 git -C /repo worktree add -q --detach $WT HEAD || exit 2
 git -C $WT apply $PATCH || { echo "apply failed"; git -C /repo worktree remove --force $WT; exit 2; }
+export PATH=/opt/veriftools/go1.26.8/bin:$PATH GOTOOLCHAIN=local GOFLAGS=-mod=mod GOPROXY=off GOSUMDB=off
 for C in "$@"; do
-  OUTTXT=$(cd /verif && VERIF_DEV_REPO=$WT VERIF_DEV_OUT=$OUT ./check.sh $C quick 2>&1); RC=$?
+  OUTTXT=$(cd $V && VERIF_DEV_DIR=$V VERIF_DEV_REPO=$WT VERIF_DEV_OUT=$OUT ./bin/check $C quick 2>&1); RC=$?
   echo "  check $C exit=$RC $(echo "$OUTTXT" | grep -c '^VIOLATION') violation(s): $(echo "$OUTTXT" | grep 'fingerprint' | head -3 | sed 's/^ *//' | cut -c1-160 | tr '\n' '|')"
   [ $RC -eq 2 ] && echo "$OUTTXT" | tail -5
 done
